@@ -288,7 +288,9 @@ class BaseReader:
             z = da.from_delayed(delayed_read(offset, n, **kwargs),
                                 dtype=self.dtype, shape=_out_shape)
 
-            default_chunks = (-1,) + ("auto",) * len(self.sample_shape)
+            # Dask cannot pick "auto" chunks for an empty array
+            auto = "auto" if n else -1
+            default_chunks = (-1,) + (auto,) * len(self.sample_shape)
             z = z.rechunk(kwargs.get("chunks", default_chunks))
         else:
             z = self._read_array(offset, n, **kwargs)
